@@ -426,21 +426,28 @@ func runC04(r *core.Run) {
 		}
 		return data, want, true, ""
 	})
-	escapeSpellingsClause(r, "bed", []string{"chrom", "chrom3", "name", "name12"}, func(field, v string) ([]byte, []obsItem, bool, string) {
-		if hasDelim(v) || (strings.HasPrefix(field, "chrom") && v[0] == '#') {
-			return nil, nil, false, ""
-		}
+	bedFieldNames := []string{"chrom", "chrom3", "name", "name12"}
+	bedFields := func(field string, vals []string) ([]byte, []obsItem, bool, string) {
 		n := map[string]int{"chrom": 4, "chrom3": 3, "name": 4, "name12": 12}[field]
-		first, mid, last := defaultBed(n), defaultBed(n), defaultBed(n)
+		first, last := defaultBed(n), defaultBed(n)
 		first.Chrom, last.Chrom = "first", "last"
-		if strings.HasPrefix(field, "chrom") {
-			mid.Chrom = core.S(v)
-		} else {
-			mid.Name = core.S(v)
+		recs := []bedRec{first}
+		for _, v := range vals {
+			if hasDelim(v) || (strings.HasPrefix(field, "chrom") && (v == "" || v[0] == '#')) {
+				return nil, nil, false, ""
+			}
+			mid := defaultBed(n)
+			if strings.HasPrefix(field, "chrom") {
+				mid.Chrom = core.S(v)
+			} else {
+				mid.Name = core.S(v)
+			}
+			recs = append(recs, mid)
 		}
+		recs = append(recs, last)
 		var data []byte
 		var want []obsItem
-		for _, rc := range []bedRec{first, mid, last} {
+		for _, rc := range recs {
 			d, fail := writeBedChecked(rc)
 			if fail != "" {
 				return nil, nil, true, fail
@@ -449,7 +456,9 @@ func runC04(r *core.Run) {
 			want = append(want, obsItem{Rec: renderBED(rc.expectBack())})
 		}
 		return data, want, true, ""
-	})
+	}
+	escapeSpellingsClause(r, "bed", bedFieldNames, bedFields)
+	relativesClause(r, "bed", bedFieldNames, bedFields)
 	interleavedReadersFor(r, []string{"bed"})
 	consumerMutatesRecords(r, []string{"bed"})
 	bigFiles(r, "bed", []int{3, 4, 5, 6, 7, 8, 9, 10, 11, 12})
